@@ -502,7 +502,10 @@ fn main() {
     let nseq = arg_u64("--seqs", if thorough { 900 } else { 130 });
     let len = arg_u64("--len", 40);
     let mut rng = Rng::new(seed);
-    scenario_directed(&mut t);
+    // `--no-directed`: generated sequences only (used to test the generator against mutants)
+    if !std::env::args().any(|a| a == "--no-directed") {
+        scenario_directed(&mut t);
+    }
     for k in 0..nseq {
         let min_temp = if rng.chance(50) { 1 } else { 16 };
         let start = *rng.pick(&[2u32, 100, 5000]);
